@@ -3,7 +3,7 @@
    empty / engaged / the receiver itself) each member ends, without a lifetime error, in the same
    wrapper states as the model function the refinement theorems are about. *)
 From Common Require Import Prelude.
-From C09 Require Import Model Spec Env Micro MicroProofs.
+From C09 Require Import Model Spec Env Micro MicroProofs Exc.
 From C09.gen Require Import Facts.
 Local Open Scope N_scope.
 
@@ -106,3 +106,9 @@ Lemma sem_emplace_deref z rv x w :
   same_cells (run_member z gen_table MEmplace (vderef z rv) (wf2 x (Some w)))
              (m_emplace_from (read_value z Other rv) (wf2 x (Some w))).
 Proof. destruct rv, z, x; cbv; split; reflexivity. Qed.
+
+(* exceptions: in the extracted programs every flag store follows the payload operation it announces *)
+Lemma sem_exc : exc_check flag_live gen_table = true.
+Proof. vm_compute. reflexivity. Qed.
+Lemma sem_exc_iff : exc_check flag_iff_live gen_table = true.
+Proof. vm_compute. reflexivity. Qed.
